@@ -48,6 +48,25 @@ def concrete(inp):
             cands.append(dict(f, kind=kind, mode=mode, basis="weight", program=inp.get("program"), N=N, A=1.0, dt=frac * 12.0 / 0.3, m0=12.0, P1=0.05, P2=0.04, x0=0.7,
                               n_curves=inp.get("n_curves", 2), initial_permeances=False))
     import warnings
+    if "non_isothermal" in kind:
+        for f in realrun.proc_fallback(mode, None)[:1]:
+            base = dict(f, kind=kind, mode=mode, basis="weight", m0=1.0, A=1.0, n_curves=inp.get("n_curves", 2), initial_permeances=False)
+            # temperature programmes that cross 0 K
+            for coefs, N, dt in (((f["T0"], -400.0), 2, 1.0), ((f["T0"], 20.0, -130.0), 3, 1.0), ((f["T0"], -90.0), 5, 1.0)):
+                c = dict(base, program="polynomial", N=N, dt=dt, A=0.001)
+                c.update({"tc%d" % j: v for j, v in enumerate(coefs)})
+                cands.append(c)
+            # self-cooling: one step removing 50..99 % of the feed (scaled from a one-step probe of the same model)
+            try:
+                with warnings.catch_warnings():
+                    warnings.simplefilter("ignore")
+                    probe, _, _ = realrun.process(dict(base, program=None, N=1, dt=1e-6))
+                jt = float(sum(probe.partial_fluxes[0]))
+                for frac in (0.5, 0.6, 0.7, 0.8, 0.9, 0.95, 0.99):
+                    for N in (2, 3):
+                        cands.append(dict(base, program=None, N=N, dt=frac * 1.0 / (jt * 1.0)))
+            except Exception:
+                pass
     for i in cands:
         try:
             with warnings.catch_warnings():
